@@ -21,7 +21,7 @@ import time
 from vlib import common
 
 PLUGINS = ["curry", "uncurry", "flip", "apply", "tuple"]
-OPS = {"build", "curry", "flip", "apply", "uncurry", "uncurrycurry", "tuple"}
+OPS = {"build", "curry", "flip", "apply", "uncurry", "uncurrycurry", "tuple", "nest3", "nest4"}
 GEN = "genfuncs"
 
 # ---------------------------------------------------------------- probing the model variant flags
